@@ -151,3 +151,123 @@ def model_answer_fn(model):
             raise AssertionError('project(%s) returned axes %s' % (proj, fac.domain.attrs))
         return fac.values
     return f
+
+
+# ----------------------------------------------------------------------------- estimation cases
+
+@st.composite
+def zero_specs(draw, attrs, shape, witness, allow_empty=False):
+    """Structural zeros: {clique: [cells]} never covering the witness assignment."""
+    sizes = dict(zip(attrs, shape))
+    out = []
+    for _ in range(draw(st.integers(1, 3))):
+        cl = draw(gen.ordered_subset(attrs, 1, min(3, len(attrs))))
+        if any(tuple(cl) == tuple(o['clique']) for o in out):
+            continue
+        dims = [sizes[a] for a in cl]
+        ncell = int(np.prod(dims))
+        wit = tuple(witness[attrs.index(a)] for a in cl)
+        cells = []
+        k = draw(st.integers(0 if allow_empty else 1, max(1, min(4, ncell - 1))))
+        for _ in range(k):
+            c = tuple(draw(st.integers(0, d - 1)) for d in dims)
+            if c != wit and list(c) not in cells:
+                cells.append(list(c))
+        if cells or allow_empty:
+            out.append({'clique': cl, 'cells': cells})
+    return out
+
+
+def zeros_dict(zspecs):
+    return {tuple(z['clique']): [tuple(c) for c in z['cells']] for z in zspecs}
+
+
+def zero_mask(zspecs, attrs, shape):
+    """Boolean table over the full domain: True where some declared-zero cell applies."""
+    mask = np.zeros(shape, dtype=bool)
+    for z in zspecs:
+        cl = list(z['clique'])
+        sub = np.zeros([shape[attrs.index(a)] for a in cl], dtype=bool)
+        for c in z['cells']:
+            sub[tuple(c)] = True
+        mask |= oracles.expand_to(attrs, shape, cl, sub.astype(float)).astype(bool) | np.zeros(shape, dtype=bool)
+    return mask
+
+
+@st.composite
+def est_cases(draw, min_attrs=2, max_attrs=4, max_size=4, cap=256, min_m=0, max_m=5, zeros=False, iters=(1, 2, 3, 10, 50),
+              solvers=('MD', 'RDA', 'IG'), totals=(1.0, 10, 1000.0, 37.5, None, None), kinds=None, allow_empty_zero=False):
+    dom = draw(gen.domains(min_attrs, max_attrs, 1, max_size, cap=cap))
+    attrs, shape = dom['attrs'], dom['shape']
+    meas = draw(measurement_specs(attrs, shape, min_m, max_m, max_proj=3, max_cells=64, kinds=kinds)) if max_m > 0 else []
+    witness = [draw(st.integers(0, s - 1)) for s in shape]
+    case = {'domain': dom, 'meas': meas, 'data_seed': draw(st.integers(0, 2**31 - 1)),
+            'total': draw(st.sampled_from(list(totals))), 'true_total': draw(st.sampled_from([1.0, 20.0, 500.0])),
+            'solver': draw(st.sampled_from(list(solvers))), 'iters': draw(st.sampled_from(list(iters))),
+            'witness': witness, 'zeros': [], 'stepsize': None,
+            'elim': draw(st.sampled_from(['none', 'none', 'perm']))}
+    if case['elim'] == 'perm':
+        case['elim_perm'] = list(draw(st.permutations(attrs)))
+    if zeros and draw(st.booleans()):
+        case['zeros'] = draw(zero_specs(attrs, shape, witness, allow_empty_zero))
+    if case['solver'] == 'MD' and draw(st.integers(0, 4)) == 0:
+        case['stepsize'] = draw(st.sampled_from([0.1, 1.0]))
+    return case
+
+
+def usable_meas(case):
+    """RDA/IG call eigsh(k=1), which needs a query over >= 2 cells (ARPACK precondition) and a non-zero
+    query matrix (ARPACK: 'starting vector is zero'): drop one-cell projections and all-zero queries there."""
+    attrs, shape = case['domain']['attrs'], case['domain']['shape']
+    sizes = dict(zip(attrs, shape))
+    ms = list(case['meas'])
+    if case.get('solver') in ('RDA', 'IG'):
+        ms = [m for m in ms if int(np.prod([sizes[a] for a in m['proj']])) >= 2 and m['q']['kind'] != 'zero']
+    return ms
+
+
+def prepare(case, spelling='tuple'):
+    """-> (attrs, shape, X_true, [Meas]) ; the total used to scale the data is case['total'] or case['true_total']."""
+    attrs, shape = list(case['domain']['attrs']), list(case['domain']['shape'])
+    tt = case['total'] if case['total'] is not None else case['true_total']
+    X = true_table(case['data_seed'], shape, tt)
+    return attrs, shape, X, expand(usable_meas(case), attrs, shape, X, spelling)
+
+
+def make_engine(mbi, case, domain, **kw):
+    elim = case.get('elim_perm') if case.get('elim') == 'perm' else None
+    return mbi.FactoredInference(domain, iters=case['iters'], structural_zeros=zeros_dict(case.get('zeros', [])),
+                                 elim_order=elim, **kw)
+
+
+def run_estimate(mbi, case, engine, meas, callback=None):
+    opts = {}
+    if case.get('stepsize') is not None and case['solver'] == 'MD':
+        opts['stepsize'] = case['stepsize'] / max(float(case['total'] or case['true_total']), 1.0) ** 2
+    return engine.estimate([m.tuple for m in meas], total=case['total'], engine=case['solver'], callback=callback, options=dict(opts))
+
+
+def potentials_joint(model, attrs, shape):
+    """Brute-force joint of a returned model's stored parameters.  Each factor is shifted by its largest
+    finite entry first (a constant shift does not change the distribution), so the oracle stays exact even
+    when the stored potentials carry a huge common offset."""
+    factors = []
+    for cl in model.cliques:
+        f = model.potentials[cl]
+        v = np.asarray(f.values, dtype=float)
+        fin = v[np.isfinite(v)]
+        if fin.size:
+            v = v - float(np.max(fin))
+        factors.append((list(f.domain.attrs), v))
+    return oracles.joint(attrs, shape, factors, float(model.total))
+
+
+def theta_offset(model):
+    """Root-cause signature of runaway potentials: the largest, over cliques, of the smallest finite |theta|."""
+    worst = 0.0
+    for cl in model.cliques:
+        v = np.asarray(model.potentials[cl].values, dtype=float)
+        fin = np.abs(v[np.isfinite(v)])
+        if fin.size:
+            worst = max(worst, float(np.min(fin)))
+    return worst
